@@ -96,6 +96,7 @@ structure State where
   openOther : Nat → Option Nat := fun _ => none          -- `openOwnerFilesByOther`: other ↦ open-owner
   lo        : Nat → LockOwner := fun _ => {}
   lockFiles : List (Nat × Nat × Nat) := []                -- `lockOwnerFilesByOther`: (lock other, lock-owner, open other)
+  legacyOpenFH : Bool := false                            -- the code before commit 2dc060f (replayed OPEN leaves the current filehandle alone)
   waiting   : List (Nat × Nat) := []                      -- ghost: calls blocked on an owner's transaction (call, owner)
   execs     : List (Nat × Req) := []                      -- ghost: transactions started, in order
 
@@ -133,7 +134,10 @@ def resolve (s : State) (r : Req) : Option Nat :=
 def forget (s : State) (o : Nat) : State :=
   { s with
     oo := fun k => if k = o then { s.oo k with lastResp := none, closedFile := none, lastDone := none } else s.oo k
-    openOther := fun f => if (s.oo o).lastResp.isSome && (s.oo o).closedFile == some f then none else s.openOther f }
+    openOther := fun f =>
+      -- `removeFinalize` deletes the entry of the owner's OWN half-closed file
+      if (s.oo o).lastResp.isSome && (s.oo o).closedFile == some f && s.openOther f == some o then none
+      else s.openOther f }
 
 /-- `lockOwnerFilesByOther[l]`: (lock-owner, open state ID other of its file). -/
 def lockLookup (s : State) (l : Nat) : Option (Nat × Nat) :=
@@ -176,6 +180,37 @@ def arrive (s : State) (call : Nat) (r : Req) : State × Out :=
         if r.seq ≠ nextSeq ow.lastSeq then (s, .reply (.err errBadSeqid)) else (begin s o call r, .started)
       | .open_ => (begin (reinit s o) o call r, .started)
       | _ => (s, .reply (.err errBadSeqid))
+
+/-! ### The current filehandle
+
+`txOpen` makes the opened file the current filehandle, so that GETFH / GETATTR
+behind OPEN in the same compound refer to it.  Files are named by the `other`
+of their open state ID.  `none` = the operation leaves the current filehandle
+as it was. -/
+
+/-- Current filehandle set by the transaction op that completed with `e`. -/
+def finishFH (r : Req) (e : Resp) : Option Nat :=
+  if r.kind == .open_ && e.status == 0 then e.sid.map (·.1) else none
+
+/-- Current filehandle set by the replay arm of `opOpen` (commit 2dc060f): the
+file named by the state ID of the cached OK response, looked up in
+`openOwnerFilesByOther`. -/
+def replayFH (s : State) (r : Req) (rep : Reply) : Option Nat :=
+  if s.legacyOpenFH then none
+  else match rep with
+    | .cached c =>
+      if r.kind == .open_ && c.status == 0 then
+        match c.sid with
+        | some (f, _) => if (s.openOther f).isSome then some f else none
+        | none => none
+      else none
+    | .err _ => none
+
+/-- Current filehandle after an operation that `arrive` answers at once. -/
+def arriveFH (s : State) (c : Nat) (r : Req) : Option Nat :=
+  match (arrive s c r).2 with
+  | .reply rep => replayFH s r rep
+  | _ => none
 
 /-- Input of `finish`: the response the operation produced and, for LOCK with
 `open_to_lock_owner4`, the lock-owner named in the request, its lock seqid,
